@@ -397,9 +397,17 @@ def main(prop, tier, seed, replay_path=None):
             labels = [l for (_, l) in path] + [lab]
             states = [g.nodes[n] for (n, _) in path] + [g.nodes[v]]
             jobs.append((labels, states))
-        # E4: the design-level counter-example, executed on the real code
-        for ce in e1_counterexamples:
-            pass
+        # long random walks through the specification (TLC simulation mode), replayed in full
+        wd2 = workdir("lifecycle-sim")
+        try:
+            (wd2 / "s.cfg").write_text(tlc_cfg(10 if tier == "quick" else 14, repaired, invariants=False))
+            behs, rs = stategraph.simulate("Lifecycle", str(wd2 / "s.cfg"), 60 if tier == "quick" else 1500,
+                                           11 if tier == "quick" else 15, seed + 1, "lifecycle")
+        finally:
+            cleanup(wd2)
+        n_sim = len(behs)
+        for b in behs:
+            jobs.append(([lab for (lab, _) in b[1:]], [st for (_, st) in b[1:]]))
     ctx = mp.get_context("fork")
     with ctx.Pool(min(16, os.cpu_count() or 4)) as pool:
         results = pool.map(replay_edge, jobs, chunksize=max(1, len(jobs) // 128))
@@ -442,7 +450,9 @@ def main(prop, tier, seed, replay_path=None):
         "design_level": {"module": "Lifecycle", "depth": depth_e1, "distinct_states": r1.distinct,
                          "states_generated": r1.generated, "violated": r1.violated, "constants_repaired": repaired},
         "graph": {"depth": depth_g, "states": len(g.nodes), "edges": len(g.edges),
-                  "distinct_state_operation_pairs": (n_unique if not replay_path else 0), "edges_replayed": len(jobs)},
+                  "distinct_state_operation_pairs": (n_unique if not replay_path else 0),
+                  "edges_replayed": len(jobs) - (n_sim if not replay_path else 0),
+                  "simulated_behaviours_replayed": (n_sim if not replay_path else 0)},
         "conformance_rejections": len(drifts), "real_state_violations": n_viol, "known_findings_hit": known,
     }
     write_evidence(prop, tier, seed, time.time() - t0, cov, STD_ASSUMPTIONS + [
